@@ -293,8 +293,6 @@ fn run_op<const N: usize>(buf: &mut FixedBuf<N>, c: &mut Cur, out: &mut Vec<i128
                 Ok(q) => enc_io_usize(out, &q),
                 Err(_) => out.push(PANIC),
             }
-            out.push(rd.log.len() as i128);
-            out.extend(rd.log.iter().map(|x| *x as i128));
         }
         20 => {
             let which = c.next();
